@@ -661,7 +661,7 @@ func spaces(tier string) []kit.Space {
 		}
 	}
 	if tier == "thorough" {
-		return []kit.Space{full(3), opsSpace(), closuresSpace(), valuesSpace(), usedvarsSpace()}
+		return []kit.Space{full(3), opsSpace(), closuresSpace(), valuesSpace(), usedvarsSpace(), rangeAssignSpace()}
 	}
 	// quick: every sequence of length <= 2 over all 18 kinds in every
 	// configuration, plus every sequence of length 3 over the 10 kinds of
@@ -680,7 +680,7 @@ func spaces(tier string) []kit.Space {
 			Eval:     func(i uint64) kit.Outcome { return mk3(i).eval() },
 			Describe: func(i uint64) any { return describe(mk3(i)) },
 		},
-		opsSpace(), closuresSpace(), valuesSpace(), usedvarsSpace(),
+		opsSpace(), closuresSpace(), valuesSpace(), usedvarsSpace(), rangeAssignSpace(),
 	}
 }
 
@@ -694,6 +694,7 @@ func main() {
 			"Sequences that refer to the same-name variable in a configuration without its file are counted in their own class and are not cases. A case is non-trivial when it has at least one reference (it builds, runs, and its output, the caller's variable and UsedVars are compared with the model)",
 		Assumptions: []string{
 			"ops, closures, values and usedvars (see ops.go), identical in both tiers: ops = 12 operations x 10 variable kinds x 7 positions x vars (value, pointer, absent) next to two other globals, judged against the twin in which the global is a local variable initialised with the supplied value (combinations that are not valid Scriggo for a local variable are not cases; 'default' is judged against a plain show); closures = 7 shapes of 2-3 nested macros / function literals x 3 target globals x read/write x every choice of what the enclosing levels reference (8 ordered subsets each) x values/pointers, exact expected output; values = macro of an imported / extending / rendered file used directly, through a variable, as an argument, as a slice element, passed down two macros x reads/writes the global x 7 plans of 2-3 runs of one Template with different values; usedvars = 8 referenced subsets of a, b, c x 3 shapes x 3 mutations of the returned slice x 4 neighbours (none, package-level variable of an imported file, global with a value, variable of a native package imported by two files): UsedVars must be unaffected by the caller's changes, report exactly the referenced globals without value, and Run must work with exactly the reported names",
+			"range-assign-global (see rangeassign.go), identical in both tiers: a declared global as the iteration variable of a range statement in assignment form: 6 range forms (g alone, g with _, _ with g, two globals, g next to a local in either position) x 6 ranged kinds (slice, array, string, one-entry map, closed buffered channel, empty slice; a form with two variables over a channel is not a case) x 0/1/2 other globals mentioned before the statement in its function x 0/2 other globals mentioned at the top level before the macro holding it is called x range statement at top level / main-file macro / imported macro x references after the loop at top level / main-file macro / imported macro x vars absent / values / pointers; the iteration variables printed at every iteration, their values after the loop, the two other globals, the caller's variables and UsedVars are compared with the one-cell model. Range over an integer is not part of the space: this Scriggo rejects it (cannot range over 3)",
 			"in the extends scenario 'top level' is the extended layout and the macro sites are the extending file's macros called from the layout",
 			"every write stores a value distinct from the zero value, the supplied value, every other write of the case and every value of the imported file's own variable, so each read identifies the write it observed",
 			"a second declared global w is never referenced and must not be listed by UsedVars",
